@@ -67,6 +67,22 @@ struct Inputs {
     embedded_pairing_wkdibe_gt_t msg;
     embedded_pairing_wkdibe_g1_t hbuf[2];
     embedded_pairing_wkdibe_freeslot_t bbuf[2];
+    /* second setup with signature support, a key with one free slot, a signature; LQ-IBE objects for two identities */
+    embedded_pairing_wkdibe_params_t sparams;
+    embedded_pairing_wkdibe_masterkey_t smsk;
+    embedded_pairing_wkdibe_secretkey_t skey;
+    embedded_pairing_wkdibe_signature_t sig;
+    embedded_pairing_wkdibe_scalar_t sigmsg;
+    embedded_pairing_wkdibe_attribute_t attr2;
+    embedded_pairing_wkdibe_attributelist_t al2;
+    embedded_pairing_wkdibe_g1_t shbuf[2];
+    embedded_pairing_wkdibe_freeslot_t sbbuf[2];
+    embedded_pairing_bls12_381_g2prepared_t prep;
+    embedded_pairing_lqibe_params_t lqparams;
+    embedded_pairing_lqibe_masterkey_t lqmsk;
+    embedded_pairing_lqibe_id_t lqid[2];
+    embedded_pairing_lqibe_secretkey_t lqsk[2];
+    embedded_pairing_lqibe_ciphertext_t lqct[2];
 };
 static Inputs IN;
 
@@ -83,6 +99,17 @@ static NOINSTR void thread_random(void* buf, size_t n) {
     uint8_t* p = (uint8_t*) buf;
     for (size_t i = 0; i < n; i++) { trs ^= trs << 13; trs ^= trs >> 7; trs ^= trs << 17; p[i] = (uint8_t) (trs >> 24); }
 }
+
+/* caller-side hash for LQ-IBE: a deterministic expansion of the bytes the library hands over.  Runs in the caller's context, where a
+ * real application may be preempted or may itself call into the library: an explicit scheduling point (declared below). */
+static NOINSTR void hash_fill_impl(void* out, size_t n, const void* in, size_t inlen) {
+    uint64_t h = 0xcbf29ce484222325ull;
+    const uint8_t* p = (const uint8_t*) in;
+    for (size_t i = 0; i < inlen; i++) { h ^= p[i]; h *= 0x100000001b3ull; }
+    uint8_t* o = (uint8_t*) out;
+    for (size_t i = 0; i < n; i++) { h ^= h << 13; h ^= h >> 7; h ^= h << 17; o[i] = (uint8_t) (h >> 32); }
+}
+static NOINSTR void hash_fill_cb(void* out, size_t n, const void* in, size_t inlen);
 
 static NOINSTR void build_inputs() {
     memset(&IN, 0, sizeof(IN));
@@ -116,6 +143,24 @@ static NOINSTR void build_inputs() {
     embedded_pairing_wkdibe_keygen(&IN.key, &IN.params, &IN.msk, &IN.al, det_random);
     embedded_pairing_wkdibe_random_gt(&IN.msg, det_random);
     embedded_pairing_wkdibe_encrypt(&IN.ct, &IN.msg, &IN.params, &IN.al, det_random);
+    IN.sparams.h = IN.shbuf;
+    embedded_pairing_wkdibe_setup(&IN.sparams, &IN.smsk, 2, true, det_random);
+    IN.skey.b = IN.sbbuf;
+    embedded_pairing_wkdibe_keygen(&IN.skey, &IN.sparams, &IN.smsk, &IN.al, det_random);
+    memset(&IN.attr2, 0, sizeof(IN.attr2));
+    IN.attr2.idx = 1; ((uint8_t*) &IN.attr2.id)[0] = 5; IN.attr2.omitFromKeys = false;
+    IN.al2.attrs = &IN.attr2; IN.al2.length = 1; IN.al2.omitAllFromKeysUnlessPresent = false;
+    embedded_pairing_bls12_381_zp_random(&IN.sigmsg, det_random);
+    embedded_pairing_wkdibe_sign(&IN.sig, &IN.sparams, &IN.skey, &IN.al, &IN.sigmsg, det_random);
+    embedded_pairing_bls12_381_g2prepared_prepare(&IN.prep, &IN.g2aff);
+    embedded_pairing_lqibe_setup(&IN.lqparams, &IN.lqmsk, det_random);
+    for (int i = 0; i < 2; i++) {
+        embedded_pairing_lqibe_idhash_t h; det_random(&h, sizeof(h));
+        embedded_pairing_lqibe_compute_id_from_hash(&IN.lqid[i], &h);
+        embedded_pairing_lqibe_keygen(&IN.lqsk[i], &IN.lqmsk, &IN.lqid[i]);
+        uint8_t sym[32];
+        embedded_pairing_lqibe_encrypt(&IN.lqct[i], sym, sizeof(sym), &IN.lqparams, &IN.lqid[i], hash_fill_impl, det_random);
+    }
 }
 
 /* --------------------------------------------------------------------------------------------- operation menu */
@@ -154,6 +199,29 @@ OP(g1_random) { trs = 0x1234567ull; embedded_pairing_bls12_381_g1_random((embedd
 OP(wkdibe_encrypt) { trs = 0x7654321ull; embedded_pairing_wkdibe_encrypt((embedded_pairing_wkdibe_ciphertext_t*) o.bytes, &IN.msg, &IN.params, &IN.al, thread_random); }
 OP(wkdibe_decrypt) { embedded_pairing_wkdibe_decrypt((embedded_pairing_wkdibe_gt_t*) o.bytes, &IN.ct, &IN.key); }
 
+OP(g2_random) { trs = 0x2345671ull; embedded_pairing_bls12_381_g2_random((embedded_pairing_bls12_381_g2_t*) o.bytes, thread_random); }
+OP(gt_random) { trs = 0x3456712ull; embedded_pairing_core_bigint_256_t k; embedded_pairing_bls12_381_gt_multiply_random((embedded_pairing_bls12_381_fq12_t*) o.bytes, &k, &IN.gt, thread_random); memcpy(o.bytes + 600, &k, 32); }
+OP(prepared_pairing) { embedded_pairing_bls12_381_prepared_pairing((embedded_pairing_bls12_381_fq12_t*) o.bytes, &IN.g1aff, &IN.prep); }
+OP(g2_prepare) { static_assert(sizeof(embedded_pairing_bls12_381_g2prepared_t) < 24000, ""); static thread_local embedded_pairing_bls12_381_g2prepared_t pr; embedded_pairing_bls12_381_g2prepared_prepare(&pr, &IN.g2aff); hash_fill_impl(o.bytes, 64, &pr, sizeof(pr)); }
+OP(wkdibe_keygen) {
+    trs = 0x4567123ull; embedded_pairing_wkdibe_secretkey_t k; embedded_pairing_wkdibe_freeslot_t b[2]; memset(&k, 0, sizeof(k)); memset(b, 0, sizeof(b)); k.b = b;
+    embedded_pairing_wkdibe_keygen(&k, &IN.sparams, &IN.smsk, &IN.al, thread_random);
+    k.b = nullptr; memcpy(o.bytes, &k, sizeof(k)); memcpy(o.bytes + 512, b, sizeof(b) < 500 ? sizeof(b) : 500);
+}
+OP(wkdibe_qualifykey) {
+    trs = 0x5671234ull; embedded_pairing_wkdibe_secretkey_t k; embedded_pairing_wkdibe_freeslot_t b[2]; memset(&k, 0, sizeof(k)); memset(b, 0, sizeof(b)); k.b = b;
+    embedded_pairing_wkdibe_qualifykey(&k, &IN.sparams, &IN.skey, &IN.al2, thread_random);
+    k.b = nullptr; memcpy(o.bytes, &k, sizeof(k)); memcpy(o.bytes + 512, b, sizeof(b) < 500 ? sizeof(b) : 500);
+}
+OP(wkdibe_sign) { trs = 0x6712345ull; embedded_pairing_wkdibe_sign((embedded_pairing_wkdibe_signature_t*) o.bytes, &IN.sparams, &IN.skey, &IN.al, &IN.sigmsg, thread_random); }
+OP(wkdibe_verify) { o.bytes[0] = embedded_pairing_wkdibe_verify(&IN.sparams, &IN.al, &IN.sig, &IN.sigmsg) ? 1 : 0; }
+OP(lqibe_keygen) { embedded_pairing_lqibe_keygen((embedded_pairing_lqibe_secretkey_t*) o.bytes, &IN.lqmsk, &IN.lqid[0]); }
+/* two identities: thread-local choice by the output address parity would be fragile; instead each op has a fixed identity */
+OP(lqibe_encrypt0) { trs = 0x7123456ull; embedded_pairing_lqibe_encrypt((embedded_pairing_lqibe_ciphertext_t*) (o.bytes + 64), o.bytes, 32, &IN.lqparams, &IN.lqid[0], hash_fill_cb, thread_random); }
+OP(lqibe_encrypt1) { trs = 0x1234576ull; embedded_pairing_lqibe_encrypt((embedded_pairing_lqibe_ciphertext_t*) (o.bytes + 64), o.bytes, 32, &IN.lqparams, &IN.lqid[1], hash_fill_cb, thread_random); }
+OP(lqibe_decrypt0) { embedded_pairing_lqibe_decrypt(o.bytes, 32, &IN.lqct[0], &IN.lqsk[0], &IN.lqid[0], hash_fill_cb); }
+OP(lqibe_decrypt1) { embedded_pairing_lqibe_decrypt(o.bytes, 32, &IN.lqct[1], &IN.lqsk[1], &IN.lqid[1], hash_fill_cb); }
+
 struct OpEntry { const char* name; opfn fn; };
 static OpEntry OPS[] = {
     {"fq_inverse", op_fq_inverse}, {"fq_sqrt", op_fq_sqrt}, {"fr_sqrt", op_fr_sqrt}, {"fq2_multiply", op_fq2_multiply}, {"fq2_sqrt", op_fq2_sqrt},
@@ -163,6 +231,9 @@ static OpEntry OPS[] = {
     {"gt_multiply", op_gt_multiply}, {"wnaf_recode", op_wnaf_recode}, {"decompose", op_decompose}, {"g1_encode_decode", op_g1_encode_decode},
     {"g2_encode_decode", op_g2_encode_decode}, {"hash_to_g1", op_hash_to_g1}, {"hash_to_g2", op_hash_to_g2}, {"hash_to_id", op_hash_to_id}, {"zp_from_hash", op_zp_from_hash},
     {"pairing", op_pairing}, {"final_exponentiation", op_final_exponentiation}, {"g1_random", op_g1_random}, {"wkdibe_encrypt", op_wkdibe_encrypt}, {"wkdibe_decrypt", op_wkdibe_decrypt},
+    {"g2_random", op_g2_random}, {"gt_random", op_gt_random}, {"prepared_pairing", op_prepared_pairing}, {"g2_prepare", op_g2_prepare}, {"wkdibe_keygen", op_wkdibe_keygen},
+    {"wkdibe_qualifykey", op_wkdibe_qualifykey}, {"wkdibe_sign", op_wkdibe_sign}, {"wkdibe_verify", op_wkdibe_verify}, {"lqibe_keygen", op_lqibe_keygen},
+    {"lqibe_encrypt0", op_lqibe_encrypt0}, {"lqibe_encrypt1", op_lqibe_encrypt1}, {"lqibe_decrypt0", op_lqibe_decrypt0}, {"lqibe_decrypt1", op_lqibe_decrypt1},
 };
 static const int NOPS = sizeof(OPS) / sizeof(OPS[0]);
 static NOINSTR int find_op(const char* n) { for (int i = 0; i < NOPS; i++) if (!strcmp(OPS[i].name, n)) return i; fprintf(stderr, "unknown op %s\n", n); exit(2); }
@@ -217,6 +288,13 @@ static NOINSTR void sched_point() {
         yield_to(me, other);
     }
     pthread_mutex_unlock(&mu);
+}
+
+/* the caller's hash runs between two halves of a library call: always a scheduling point inside a managed thread, taken BEFORE the
+ * bytes are consumed, so a library that hands over shared storage is exposed to the other thread while this one is parked */
+static NOINSTR void hash_fill_cb(void* out, size_t n, const void* in, size_t inlen) {
+    if (my_id >= 0 && scheduling_on && !in_hook) { in_hook = true; sched_point(); in_hook = false; }
+    hash_fill_impl(out, n, in, inlen);
 }
 
 extern "C" NOINSTR void __cyg_profile_func_enter(void*, void*) {
@@ -321,7 +399,7 @@ int main(int argc, char** argv) {
     if (!strcmp(argv[1], "free")) {
         /* free-running pass: all menu entries on 16 threads at once, several rounds, results compared with sequential */
         int rounds = argc > 2 ? atoi(argv[2]) : 2;
-        static Out seq[64];
+        static Out seq[96];
         for (int i = 0; i < NOPS; i++) { memset(&seq[i], 0xCD, sizeof(Out)); OPS[i].fn(seq[i]); }
         struct FA { int start; int rounds; int bad; };
         auto body = [](void* p) -> void* {
